@@ -17,49 +17,69 @@ def facts : List InitFact := [
     toks := [.loadGuard, .brGuard .body .ret, .storeGuard, .brRet],
     imports := [], goList := [] },
   -- c12f/t0/tr.init
-  { id := 0, hasPatchFn := false, chained := false,
+  { id := 2, hasPatchFn := false, chained := false,
     toks := [.loadGuard, .brGuard .ret .body, .storeGuard, .act, .brRet],
     imports := [], goList := [] },
-  -- c12f/t0/sierra.init
-  { id := 1, hasPatchFn := false, chained := false,
-    toks := [.loadGuard, .brGuard .ret .body, .storeGuard, .callInit 0, .act, .brRet],
-    imports := [0], goList := [0] },
-  -- c12f/t0/omega.init
-  { id := 2, hasPatchFn := false, chained := false,
-    toks := [.loadGuard, .brGuard .ret .body, .storeGuard, .callInit 0, .act, .brRet],
-    imports := [0], goList := [0] },
-  -- c12f/t0/deep/mid.init
+  -- c12f/t0/bravo.init
   { id := 3, hasPatchFn := false, chained := false,
-    toks := [.loadGuard, .brGuard .ret .body, .storeGuard, .callInit 0, .callInit 1, .callInit 2, .act, .brRet],
-    imports := [0, 1, 2], goList := [0, 1, 2] },
-  -- c12f/t0/able.init
+    toks := [.loadGuard, .brGuard .ret .body, .storeGuard, .callInit 2, .act, .brRet],
+    imports := [2, 0], goList := [0, 2] },
+  -- c12f/t0/beta.init (work-free package)
   { id := 4, hasPatchFn := false, chained := false,
-    toks := [.loadGuard, .brGuard .ret .body, .storeGuard, .callInit 0, .callInit 3, .act, .brRet],
-    imports := [0, 3], goList := [0, 3] },
-  -- c12f/t0/deep/bravo.init
+    toks := [.loadGuard, .brGuard .ret .body, .storeGuard, .callInit 3, .brRet],
+    imports := [3], goList := [3] },
+  -- c12f/t0/yank.init
   { id := 5, hasPatchFn := false, chained := false,
-    toks := [.loadGuard, .brGuard .ret .body, .storeGuard, .callInit 0, .callInit 4, .callInit 2, .act, .brRet],
-    imports := [0, 4, 2], goList := [0, 2, 4] },
-  -- c12f/t0.init
+    toks := [.loadGuard, .brGuard .ret .body, .storeGuard, .callInit 4, .callInit 2, .act, .brRet],
+    imports := [4, 2], goList := [2, 4] },
+  -- c12f/t0/kilo.init (work-free package)
+  { id := 6, hasPatchFn := false, chained := false,
+    toks := [.loadGuard, .brGuard .ret .body, .storeGuard, .brRet],
+    imports := [], goList := [] },
+  -- c12f/t0/echo.init (work-free package)
   { id := 7, hasPatchFn := false, chained := false,
-    toks := [.loadGuard, .brGuard .ret .body, .storeGuard, .callInit 4, .callInit 5, .callInit 0, .act, .brRet],
-    imports := [4, 5, 0], goList := [0, 4, 5] },
-  -- c12f/t1/tr.init
+    toks := [.loadGuard, .brGuard .ret .body, .storeGuard, .callInit 1, .callInit 6, .brRet],
+    imports := [1, 6], goList := [1, 6] },
+  -- c12f/t0/zeta.init
+  { id := 8, hasPatchFn := false, chained := false,
+    toks := [.loadGuard, .brGuard .ret .body, .storeGuard, .callInit 2, .callInit 4, .callInit 7, .act, .brRet],
+    imports := [2, 4, 7], goList := [2, 4, 7] },
+  -- c12f/t0.init
+  { id := 9, hasPatchFn := false, chained := false,
+    toks := [.loadGuard, .brGuard .ret .body, .storeGuard, .callInit 5, .callInit 8, .callInit 1, .callInit 2, .act, .brRet],
+    imports := [5, 8, 1, 0, 2], goList := [0, 1, 2, 5, 8] },
+  -- math/bits.init (std package compiled by llgo)
   { id := 0, hasPatchFn := false, chained := false,
     toks := [.loadGuard, .brGuard .ret .body, .storeGuard, .act, .brRet],
     imports := [], goList := [] },
-  -- c12f/t1/echo.init
-  { id := 1, hasPatchFn := false, chained := false,
-    toks := [.loadGuard, .brGuard .ret .body, .storeGuard, .callInit 0, .act, .brRet],
-    imports := [0], goList := [0] },
-  -- c12f/t1/bravo.init
+  -- unicode/utf8.init (std package compiled by llgo)
+  { id := 0, hasPatchFn := false, chained := false,
+    toks := [.loadGuard, .brGuard .ret .body, .storeGuard, .act, .brRet],
+    imports := [], goList := [] },
+  -- c12f/t1/tr.init
   { id := 2, hasPatchFn := false, chained := false,
-    toks := [.loadGuard, .brGuard .ret .body, .storeGuard, .callInit 0, .callInit 1, .act, .brRet],
-    imports := [0, 1], goList := [0, 1] },
-  -- c12f/t1.init
+    toks := [.loadGuard, .brGuard .ret .body, .storeGuard, .act, .brRet],
+    imports := [], goList := [] },
+  -- c12f/t1/mid.init
   { id := 3, hasPatchFn := false, chained := false,
-    toks := [.loadGuard, .brGuard .ret .body, .storeGuard, .callInit 0, .callInit 2, .act, .brRet],
-    imports := [0, 2], goList := [0, 2] }]
+    toks := [.loadGuard, .brGuard .ret .body, .storeGuard, .callInit 1, .callInit 2, .act, .brRet],
+    imports := [1, 0, 2], goList := [0, 1, 2] },
+  -- c12f/t1/deep/sierra.init (work-free package)
+  { id := 4, hasPatchFn := false, chained := false,
+    toks := [.loadGuard, .brGuard .ret .body, .storeGuard, .callInit 3, .brRet],
+    imports := [3], goList := [3] },
+  -- c12f/t1/bravo.init (work-free package)
+  { id := 5, hasPatchFn := false, chained := false,
+    toks := [.loadGuard, .brGuard .ret .body, .storeGuard, .callInit 4, .brRet],
+    imports := [4], goList := [4] },
+  -- c12f/t1/kilo.init (work-free package)
+  { id := 6, hasPatchFn := false, chained := false,
+    toks := [.loadGuard, .brGuard .ret .body, .storeGuard, .callInit 5, .brRet],
+    imports := [5], goList := [5] },
+  -- c12f/t1.init
+  { id := 7, hasPatchFn := false, chained := false,
+    toks := [.loadGuard, .brGuard .ret .body, .storeGuard, .callInit 2, .callInit 6, .act, .brRet],
+    imports := [2, 6], goList := [2, 6] }]
 
 def entries : List EntryFact := [
   -- c12f/t0
